@@ -342,6 +342,8 @@ fn battery() -> Vec<MV> {
         k("t"),
         MV::list(vec![k("a"), k("b1"), s("c")]),
         MV::Vec(vec![k("a")]),
+        // initials from every corner of "alphabetic": letter numbers, modifier letters, ideographs, astral letters, title case
+        MV::list(vec![s("Ⅻ"), s("ↁx"), s("〇"), s("ʰa"), s("ǅ"), s("𝔸"), s("ᛮ"), s("ͅx"), s("ⅷ-th"), k("Ⅻ"), k("〇x")]),
         MV::Bytes(vec![]),
         MV::Bytes(vec![0, 1, 127, 128, 255]),
         MV::list(vec![MV::Bytes(vec![b'a', b'"', b'\\'])]),
